@@ -22,11 +22,14 @@ CLAIMED = {
         "dead; every CommandRunWorker (first run, retry, waiter replay, collect re-run) names a slot held in the "
         "resulting in_progress, and a slot is released only by the step-result tick of that slot. Tied to the code by "
         "the L1 reducer differential (real _reduce_tick/rewind/serde/rebuild vs model, exact states+commands) and an "
-        "L2 monitor on the real engine under gate-driven schedules. PARTIAL: the runner (one body per "
-        "CommandRunWorker, result tick only after the body ends) is not modelled; that link is checked by the L2 "
-        "monitor on executions, not proved.",
-        "asyncio task scheduling and the runner loop are exercised, not modelled; commands of rewind_in_progress are "
-        "covered by correspondence only.",
+        "L2 monitor on the real engine under gate-driven schedules. Run loop (Model/Runner.v, Proofs/RunnerSlots.v): for "
+        "every schedule of worker completions, deliveries and clock advances, while the run is live the in-flight "
+        "invocations (to start, started, finished-not-harvested, result tick buffered) hold pairwise distinct "
+        "(step, slot) keys, each a slot of the step's in_progress, hence at most num_workers per step; the runner model "
+        "is tied to _ControlLoopRunner by the runner differential (complete tick log, stream and outcome, exact).",
+        "asyncio task scheduling itself is exercised (L2 monitor, runner differential on gate-driven workflows), not "
+        "modelled; the runner theorem assumes one collect_events result per buffer call and add-event-only mailboxes; "
+        "commands of rewind_in_progress are covered by correspondence only.",
         "Rocq proof (invariant by induction over tick histories, pigeonhole for slot availability) + L1/L2 correspondence",
         "DESIGN.md §7 C01, §13"),
     "C02": (
@@ -36,10 +39,16 @@ CLAIMED = {
         "the event's type gets the attempt exactly once (queue tail or fresh worker); every other step is unchanged; "
         "UnhandledEvent is published exactly once iff nobody takes it and it is not an InputRequiredEvent; a returned "
         "event becomes exactly one queue command. Tied by the L1 reducer differential + the same statement evaluated "
-        "on real transitions + L2 tick-log/delivery monitor on real runs (targeted/broadcast sends). PARTIAL: the "
-        "runner's command->tick conservation (mailbox, tick buffer) is checked on executions by the L2 monitor, not "
-        "proved; 'unless the run ends first' is handled by only demanding delivery on completed runs.",
-        "Runner queues (asyncio) exercised, not modelled.",
+        "on real transitions + L2 tick-log/delivery monitor on real runs (targeted/broadcast sends). Run loop "
+        "(Model/Runner.v, Proofs/RunnerConserve.v), for every schedule of worker completions, deliveries and clock "
+        "advances: while the run is live the events that entered it (start event, every event a reducer command "
+        "queued, every event a body or caller sent) are, with multiplicity, exactly the add-event ticks the reducer "
+        "processed plus those still in the tick buffer, mailbox or timer heap (C02_run_loop_conserves_events), and the "
+        "loop blocks only when tick buffer and mailbox are empty and no timer is due "
+        "(C02_run_loop_blocks_only_when_quiescent); tied to _ControlLoopRunner by the runner differential (complete "
+        "tick log, stream, outcome, exact).",
+        "asyncio queues themselves are exercised (L2 monitor, runner differential on gate-driven workflows), not "
+        "modelled; the ghost field envlog of the runner model records what the environment put into the mailbox.",
         "Rocq proof (exact relational characterisation, Forall2 over steps) + L1/L2 correspondence",
         "DESIGN.md §7 C02, §13"),
     "C10": (
